@@ -66,18 +66,18 @@ REPO_MODULES = [
 ]
 
 
-def _code_for(path):
+def _code_for(path, optimize=0):
     st = os.stat(path)
-    key = (path, st.st_mtime_ns, st.st_size)
+    key = (path, st.st_mtime_ns, st.st_size, optimize)
     code = _code_cache.get(key)
     if code is None:
         with open(path, "rb") as f:
-            code = compile(f.read(), path, "exec", dont_inherit=True)
+            code = compile(f.read(), path, "exec", dont_inherit=True, optimize=optimize)
         _code_cache[key] = code
     return code
 
 
-def fresh_image():
+def fresh_image(optimize=0):
     """Re-execute the repository's modules from the current working tree of $VERIF_REPO.
 
     A simulated process must start with module-level state 'just imported', as a real process does:
@@ -111,7 +111,7 @@ def fresh_image():
         else:
             mod.__package__ = name.rpartition(".")[0]
         sys.modules[name] = mod
-        exec(_code_for(path), mod.__dict__)
+        exec(_code_for(path, optimize), mod.__dict__)     # optimize=1 is what `python -O` runs: asserts stripped
         parent, _, child = name.rpartition(".")
         if parent and parent in sys.modules:
             setattr(sys.modules[parent], child, mod)
@@ -213,14 +213,14 @@ class SimFS(object):
 
     def __init__(self, log):
         self.files = {}
+        self.cwd = ""             # simulated working directory of the current process, relative to SIM_ROOT
         self.log = log
         self.faults = {}          # path -> ("read_error", errno) consumed on open for reading
         self.faults_fired = {}
         self.writes_seen = 0
 
     # path routing ------------------------------------------------------------------------
-    @staticmethod
-    def route(path):
+    def route(self, path):
         """Return the SimFS key for a path the program used, or None if it is a real path."""
         if isinstance(path, bytes):
             path = path.decode("utf-8", "surrogateescape")
@@ -235,7 +235,7 @@ class SimFS(object):
             return posixpath.normpath(rel) if rel else "."
         if posixpath.isabs(path):
             return None
-        return posixpath.normpath(path)
+        return posixpath.normpath(posixpath.join(self.cwd, path)) if self.cwd else posixpath.normpath(path)
 
     # operations --------------------------------------------------------------------------
     def exists(self, key):
@@ -256,23 +256,25 @@ class SimFS(object):
         parts = key.split("/")
         return any("/".join(parts[:i]) in self.files for i in range(1, len(parts)))
 
-    def open(self, key, mode="r", buffering=-1, encoding=None, errors=None, newline=None, **_kw):
+    def open(self, key, mode="r", buffering=-1, encoding=None, errors=None, newline=None, shown=None, **_kw):
         binary = "b" in mode
+        key_for_errors = key
+        shown = key if shown is None else shown      # error messages name the path as the program spelled it
         m = mode.replace("b", "").replace("t", "")
         self.log.add("OPEN", key, mode)
         if self._through_file(key):
-            raise NotADirectoryError(errno.ENOTDIR, os.strerror(errno.ENOTDIR), key)
+            raise NotADirectoryError(errno.ENOTDIR, os.strerror(errno.ENOTDIR), shown)
         if m in ("r", "r+"):
             if key in self.faults:
                 kind, err = self.faults.pop(key)
                 self.faults_fired[kind] = self.faults_fired.get(kind, 0) + 1
                 self.log.add("FAULT", kind, key, err)
                 exc = PermissionError if err == errno.EACCES else OSError
-                raise exc(err, os.strerror(err), key)
+                raise exc(err, os.strerror(err), shown)
             if self.is_dir(key):
-                raise IsADirectoryError(errno.EISDIR, os.strerror(errno.EISDIR), key)
+                raise IsADirectoryError(errno.EISDIR, os.strerror(errno.EISDIR), shown)
             if key not in self.files:
-                raise FileNotFoundError(errno.ENOENT, os.strerror(errno.ENOENT), key)
+                raise FileNotFoundError(errno.ENOENT, os.strerror(errno.ENOENT), shown)
             if m == "r+":
                 raw = _SimWriteFile(self, key, b"")
                 io.BytesIO.write(raw, self.files[key])  # in-place update handle, not logged as a write
@@ -281,12 +283,12 @@ class SimFS(object):
                 raw = _SimReadFile(self, key, self.files[key])
         elif m in ("w", "w+", "x", "x+", "a", "a+"):
             if self.is_dir(key):
-                raise IsADirectoryError(errno.EISDIR, os.strerror(errno.EISDIR), key)
+                raise IsADirectoryError(errno.EISDIR, os.strerror(errno.EISDIR), shown)
             parent = posixpath.dirname(key)
             if parent and not self.exists(parent):
-                raise FileNotFoundError(errno.ENOENT, os.strerror(errno.ENOENT), key)
+                raise FileNotFoundError(errno.ENOENT, os.strerror(errno.ENOENT), shown)
             if m.startswith("x") and key in self.files:
-                raise FileExistsError(errno.EEXIST, os.strerror(errno.EEXIST), key)
+                raise FileExistsError(errno.EEXIST, os.strerror(errno.EEXIST), shown)
             if m.startswith("a"):
                 raw = _SimWriteFile(self, key, self.files.get(key, b""))
                 if key not in self.files:
@@ -374,7 +376,7 @@ class _Seams(object):
             key = fs.route(file)
             if key is None:
                 return real_open(file, mode, *a, **kw)
-            return fs.open(key, mode, *a, **kw)
+            return fs.open(key, mode, *a, shown=os.fspath(file) if not isinstance(file, int) else file, **kw)
 
         def sim_stat(path, *a, **kw):
             key = fs.route(path)
@@ -453,6 +455,22 @@ class _Seams(object):
             raise HarnessError("os.open on a simulated path (%r): seam not modelled" % (path,))
 
         real_expanduser = posixpath.expanduser
+        real_chdir, real_getcwd = os.chdir, os.getcwd
+
+        def sim_chdir(path):
+            key = fs.route(path)
+            if key is None:
+                raise HarnessError("chdir out of the simulation: %r" % (path,))
+            if key != "." and not fs.is_dir(key):
+                raise FileNotFoundError(errno.ENOENT, os.strerror(errno.ENOENT), path)
+            fs.cwd = "" if key == "." else key
+            fs.log.add("CHDIR", key)
+
+        def sim_getcwd():
+            return SIM_ROOT + ("/" + fs.cwd if fs.cwd else "")
+
+        self._patch(os, "chdir", sim_chdir)
+        self._patch(os, "getcwd", sim_getcwd)
 
         def sim_expanduser(path):
             p = os.fspath(path)
@@ -600,13 +618,14 @@ class SimWorld(object):
 
     instances = None      # set to a list by the fidelity self-test to collect the worlds a run creates
 
-    def __init__(self):
+    def __init__(self, optimize=0):
         if SimWorld.instances is not None:
             SimWorld.instances.append(self)
         self.transcript = []
         self.log = EventLog()
         self.fs = SimFS(self.log)
-        self.mods = fresh_image()     # this simulated host's first process image
+        self.optimize = optimize      # interpreter configuration of this host's processes (0 = python, 1 = python -O)
+        self.mods = fresh_image(optimize)     # this simulated host's first process image
         self.clock = StepClock(self.mods["__repo__"] + os.sep)
         self.invocations = 0
 
@@ -632,7 +651,8 @@ class SimWorld(object):
 
     def invoke(self, cli, argv, budget=None):
         """One CLI process: real parse_arguments() + main() on SimFS.  Nothing but SimFS survives."""
-        self.mods = fresh_image()     # a new process: module-level state is 'just imported'
+        self.mods = fresh_image(self.optimize)     # a new process: module-level state is 'just imported'
+        self.fs.cwd = ""                           # ... and its working directory is the user's
         mod = self.mods[cli]
         res = ProcResult()
         mark = self.log.mark()
@@ -716,6 +736,10 @@ class _RealFS(object):
         return out
 
 
+    def snapshot(self):
+        return self.files
+
+
 class _NoClock(object):
     steps = 0
 
@@ -723,8 +747,9 @@ class _NoClock(object):
 class RealWorld(object):
     instances = []
 
-    def __init__(self):
+    def __init__(self, optimize=0):
         import tempfile
+        self.optimize = optimize
         self.root = tempfile.mkdtemp(prefix="cocosim-real-")
         self.fs = _RealFS(self.root)
         self.log = EventLog()
@@ -785,7 +810,7 @@ class RealWorld(object):
         before = self._snapshot()
         env = dict(os.environ)
         env.update({"PYTHONHASHSEED": "0", "PYTHONDONTWRITEBYTECODE": "1"})
-        p = subprocess.run([sys.executable, os.path.join(self.mods["__repo__"], cli + ".py")] + [str(a) for a in argv],
+        p = subprocess.run([sys.executable] + (["-O"] if self.optimize else []) + [os.path.join(self.mods["__repo__"], cli + ".py")] + [str(a) for a in argv],
                            cwd=self.root, env=env, stdout=subprocess.PIPE, stderr=subprocess.PIPE, text=True, timeout=600)
         res.status = p.returncode
         res.stdout, res.stderr = p.stdout, p.stderr
@@ -815,9 +840,9 @@ def use_real_world(flag):
     _REAL[0] = bool(flag)
 
 
-def World():
+def World(optimize=0):
     """Factory used by every engine: the simulated host, or (fidelity self-test only) the real one."""
-    return RealWorld() if _REAL[0] else SimWorld()
+    return RealWorld(optimize) if _REAL[0] else SimWorld(optimize)
 
 
 def scratch_cwd_guard():
